@@ -64,7 +64,7 @@ static inline uint64_t decode_bits(int t, bool be, const uint16_t *in) {
     return bits;
 }
 
-struct AreaSpec { uint32_t base = 0, size = 1; bool mem = true; unsigned flags = AF_R | AF_W; bool has_write = true; };
+struct AreaSpec { uint32_t base = 0, size = 1; bool mem = true; unsigned flags = AF_R | AF_W; bool has_write = true; bool has_read = true; };
 struct RegSpec { int type = 0; uint32_t addr = 0; int ck = 0; uint64_t a = 0, b = 0; int rule = 0; uint64_t def = 0; };
 
 // harness validator rules (deterministic, typed)
@@ -107,7 +107,7 @@ struct TableSpec {
     }
     bool loads_defaults(size_t ai) const { return areas[ai].has_write && !(areas[ai].flags & AF_SKIP); }
     bool area_writable(size_t ai) const { return areas[ai].has_write && (areas[ai].flags & AF_W); }
-    bool area_readable(size_t ai) const { return (areas[ai].flags & AF_R) != 0; }   // callback areas always have a read callback here
+    bool area_readable(size_t ai) const { return areas[ai].has_read && (areas[ai].flags & AF_R) != 0; }   // an area without a read callback is not readable whatever its flags say (C03 plans only)
 };
 
 // ---- well-formedness reference (property C04)
